@@ -26,7 +26,6 @@
 #include <errno.h>
 #include <string.h>
 #include <strings.h>
-#include "stubs/libc.h"
 #include "stubs/http.h"
 #include "proto/http.h"
 
@@ -58,6 +57,9 @@ __CPROVER_ensures(buf_size_ret != NULL ==> *buf_size_ret <= buf_size)
 /* pointer and length describe the same suffix */
 __CPROVER_ensures((buf_ret != NULL && buf_size_ret != NULL) ==>
     (VF_OFF(*buf_ret) - VF_OFF(buf)) + *buf_size_ret == buf_size)
+/* (redundant with the two clauses above; stated for the callers' benefit) */
+__CPROVER_ensures((buf_ret != NULL && buf_size_ret != NULL) ==>
+    (*buf_size_ret == 0 || __CPROVER_r_ok(*buf_ret, *buf_size_ret)))
 ;
 
 /* ----------------------------------------------------------------- skip_spwsp2 ---- */
@@ -99,7 +101,7 @@ __CPROVER_assigns(buf_size_ret != NULL: *buf_size_ret)
 __CPROVER_ensures(__CPROVER_return_value == 0 || __CPROVER_return_value == EINVAL)
 __CPROVER_ensures((buf_size == 0) == (__CPROVER_return_value == EINVAL))
 __CPROVER_ensures((__CPROVER_return_value == 0 && buf_size_ret != NULL) ==>
-    (*buf_size_ret <= buf_size && *buf_size_ret != 0))
+    *buf_size_ret <= buf_size)
 ;
 /* HT -> SP: same length, result in ret_buf, nothing else written */
 int ht2sp(uint8_t *buf, size_t buf_size, uint8_t *ret_buf, size_t *buf_size_ret)
